@@ -152,6 +152,9 @@ public:
                                                                                \
       return tainted<T, T_Sbx>::internal_factory(reinterpret_cast<T>(target)); \
     } else {                                                                   \
+      static_assert(!std::is_pointer_v<decltype(raw_rhs)>,                     \
+                    "Pointer arithmetic is only supported with the tainted "   \
+                    "pointer as the first operand: write tainted_ptr + n");    \
       auto raw = impl().get_raw_value();                                       \
       auto ret = raw opSymbol raw_rhs;                                         \
       using T_Ret = decltype(ret);                                             \
